@@ -2,7 +2,10 @@
    string keyed hash used for type members).  One definition per Go method, same order of tests.
    The Go `index map[string]int` is modelled explicitly (as an association list with first-match
    lookup), positions are Z so that a wrong position is a *Fault* (Go: index out of range) and not
-   a clipped nat.  State = a heap (list) of hash objects, because Copy/Merge create new objects. *)
+   a clipped nat.  State = a heap (list) of hash objects, because Copy/Merge create new objects.
+   `cap` is the capacity of the backing array of `entries`: it decides whether an append (Put / ComputeIfAbsent of a
+   new key) writes into the array a running iteration reads or moves the entries to a new one - the only thing a
+   callback that re-enters the hash can observe of it (see `iterate` below). *)
 From Coq Require Import ZArith NArith Bool List.
 From PcoreV Require Import Model.Base.
 Import ListNotations.
@@ -10,7 +13,7 @@ Open Scope Z_scope.
 
 Definition val := Z.
 
-Record sh := mkSh { entries : list (str * val); index : list (str * Z); frozen : bool }.
+Record sh := mkSh { entries : list (str * val); index : list (str * Z); frozen : bool; cap : nat }.
 
 (* map[string]int *)
 Fixpoint alookup (idx : list (str * Z)) (k : str) : option Z :=
@@ -40,6 +43,18 @@ Fixpoint eremove {A} (es : list A) (p : nat) : list A :=
   | e :: r, S p' => e :: eremove r p'
   end.
 
+(* runtime.growslice for `append(h.entries, e)` when len = cap (stringhash.go:138, :265), one more element: 1 for an
+   empty array, otherwise twice the capacity (below 256 elements), rounded up to an allocation size class.  An entry
+   is 32 bytes (a string and an interface) and 64*c bytes is a size class for every c <= 12, so the rounding is the
+   identity there; the capacity is only observable through the values a running iteration shows (below) and is
+   tied to the real code on hashes of that size. *)
+Definition grow_cap (c : nat) : nat := if Nat.eqb c 0 then 1%nat else (2 * c)%nat.
+
+(* `h.entries = append(h.entries, stringEntry{k, v})` with its index entry written first *)
+Definition append_entry (h : sh) (k : str) (v : val) : sh :=
+  mkSh (entries h ++ [(k, v)]) (aset (index h) k (Z.of_nat (length (entries h)))) false
+       (if Nat.ltb (length (entries h)) (cap h) then cap h else grow_cap (cap h)).
+
 Inductive out :=
 | RUnit
 | RObj (n : nat)                      (* a new object was created; its heap index *)
@@ -53,7 +68,10 @@ Inductive out :=
 | RFrozen                             (* panic(frozenError) *)
 | RFault                              (* Go runtime fault: index out of range *)
 | RBadObj                             (* harness error: no such object; never generated *)
-| RPanic.                             (* the mapping function handed to ComputeIfAbsent panicked (the caller recovers) *)
+| RPanic                              (* the mapping function handed to ComputeIfAbsent panicked (the caller recovers) *)
+| RIter (ks : list str) (vs : list val) (b : bool).
+                                      (* an iteration: the keys and the values handed to the callback, in order
+                                         (EachKey shows no values, EachValue no keys); the result of AllPair / AnyPair *)
 
 (* stringhash.go:129 ComputeIfAbsent *)
 Definition compute_if_absent (h : sh) (k : str) (v : val) : sh * out :=
@@ -64,8 +82,7 @@ Definition compute_if_absent (h : sh) (k : str) (v : val) : sh * out :=
               end
   | None =>
     if frozen h then (h, RFrozen)
-    else (mkSh (entries h ++ [(k, v)]) (aset (index h) k (Z.of_nat (length (entries h)))) false,
-          RVal (Some v))
+    else (append_entry h k v, RVal (Some v))
   end.
 
 (* ComputeIfAbsent whose mapping function panics: stringhash.go:136 `value := dflt()` is left by the panic before
@@ -84,12 +101,11 @@ Definition put (h : sh) (k : str) (v : val) : sh * out :=
   if frozen h then (h, RFrozen)
   else match alookup (index h) k with
        | Some p => match eget (entries h) p with
-                   | Some e => (mkSh (eset (entries h) (Z.to_nat p) v) (index h) false,
+                   | Some e => (mkSh (eset (entries h) (Z.to_nat p) v) (index h) false (cap h),
                                 RPut (Some (snd e)) true)
                    | None => (h, RFault)
                    end
-       | None => (mkSh (entries h ++ [(k, v)]) (aset (index h) k (Z.of_nat (length (entries h)))) false,
-                  RPut None false)
+       | None => (append_entry h k v, RPut None false)
        end.
 
 (* ComputeIfAbsent whose mapping function re-enters the hash: it puts k2 => v2 into the same hash and returns v.
@@ -105,14 +121,14 @@ Definition compute_put (h : sh) (k : str) (v : val) (k2 : str) (v2 : val) : sh *
     if frozen h then (h, RFrozen)
     else match put h k2 v2 with
          | (h1, RPut _ _) =>
-             (mkSh (entries h1 ++ [(k, v)]) (aset (index h1) k (Z.of_nat (length (entries h1)))) false,
-              RVal (Some v))
+             (append_entry h1 k v, RVal (Some v))
          | (h1, o) => (h1, o)
          end
   end.
 
 (* stringhash.go:142 Copy *)
-Definition copy (h : sh) : sh := mkSh (entries h) (index h) false.
+(* `make([]stringEntry, len(h.entries))`: the copy's array is exactly as long as its entries *)
+Definition copy (h : sh) : sh := mkSh (entries h) (index h) false (length (entries h)).
 
 (* stringhash.go:152 Delete.  The re-numbering loop is `PARAM_renumber`: the pinned tree wrote
    `index[k] = p - 1`; after the fix it is `v - 1`. *)
@@ -126,7 +142,9 @@ Definition delete (h : sh) (k : str) : sh * out :=
          | Some e =>
            let idx := adel (index h) k in
            let idx := map (fun kv => if snd kv >? p then (fst kv, snd kv - 1) else kv) idx in
-           (mkSh (eremove (entries h) (Z.to_nat p)) idx false, RVal (Some (snd e)))
+           (* stringhash.go:166 `ne := make([]stringEntry, len(h.entries)-1)`: always a NEW array, the old one is
+              left as it was *)
+           (mkSh (eremove (entries h) (Z.to_nat p)) idx false (length (entries h) - 1)%nat, RVal (Some (snd e)))
          end
        end.
 
@@ -172,6 +190,85 @@ Definition equals (h o : sh) : out :=
   if negb (Nat.eqb (length (entries h)) (length (entries o))) then RBool false
   else equals_loop (entries h) o.
 
+
+(* ------------------------------------------------------------------------------------------ *)
+(* Iteration with a callback that RE-ENTERS the hash it is called from (stringhash.go:113 AllPair, :122 AnyPair,
+   :179 EachKey, :185 EachPair, :191 EachValue).  Every one of them is `for _, e := range h.entries { f(e...) }`:
+   Go evaluates `h.entries` ONCE - array pointer and length - and reads element i of THAT array when it gets there.
+   The callback is given as data: what it does to the hash at its i-th call and whether it asks AllPair / AnyPair
+   to stop there. *)
+Inductive act :=
+| ANone
+| ADel (k : str)                        (* h.Delete(k) *)
+| APut (k : str) (v : val)              (* h.Put(k, v) *)
+| ACompute (k : str) (v : val).         (* h.ComputeIfAbsent(k, func() { return v }) *)
+
+Inductive iter_kind := IEachKey | IEachPair | IEachValue | IAllPair | IAnyPair.
+
+Definition act_step (h : sh) (a : act) : sh * out :=
+  match a with
+  | ANone => (h, RUnit)
+  | ADel k => delete h k
+  | APut k v => put h k v
+  | ACompute k v => compute_if_absent h k v
+  end.
+
+(* Is `h'.entries` still the array `h.entries` was (h' = h after one act_step)?  Delete allocates an array of
+   len-1 < len <= cap elements, an append that does not fit one of more than cap elements, everything else (replace
+   a value in place, append within the capacity, nothing) keeps array and capacity: the array is the same exactly
+   when the capacity is. *)
+Definition same_array (h h' : sh) : bool := Nat.eqb (cap h) (cap h').
+
+(* What the running `range` sees (`snap`: the elements of the array it holds, al: that array is still h.entries)
+   after the callback did `a` on h: stringhash.go:261 `e := &h.entries[p]; e.value = value` writes into the
+   iterated array when it is still the hash's; nothing else writes below the length the range started with
+   (appends write at or above it, Delete writes to its new array). *)
+Definition snap_after (h : sh) (a : act) (al : bool) (snap : list (str * val)) : list (str * val) :=
+  match a with
+  | APut k v => if al then match alookup (index h) k with
+                           | Some p => eset snap (Z.to_nat p) v
+                           | None => snap
+                           end
+                else snap
+  | _ => snap
+  end.
+
+(* AllPair stops at the first `false`, AnyPair at the first `true`; `stop` = the callback returns that *)
+Definition stops (kind : iter_kind) (stop : bool) : bool :=
+  match kind with IAllPair | IAnyPair => stop | _ => false end.
+
+Definition iter_out (kind : iter_kind) (acc : list (str * val)) (stopped : bool) : out :=
+  RIter (match kind with IEachValue => [] | _ => map fst acc end)
+        (match kind with IEachKey => [] | _ => map snd acc end)
+        (match kind with IAllPair => negb stopped | IAnyPair => stopped | _ => true end).
+
+Definition next_act (acts : list (act * bool)) : act * bool :=
+  match acts with [] => (ANone, false) | a :: _ => a end.
+
+(* n = elements still to visit, i = position of the next one.  A panic of the callback (mutation of a frozen hash)
+   leaves the iteration; the caller recovers. *)
+Fixpoint iter_loop (kind : iter_kind) (h : sh) (snap : list (str * val)) (al : bool) (i n : nat)
+         (acts : list (act * bool)) (acc : list (str * val)) : sh * out :=
+  match n with
+  | O => (h, iter_out kind acc false)
+  | S n' =>
+    match nth_error snap i with
+    | None => (h, RFault)
+    | Some e =>
+      let (a, stop) := next_act acts in
+      match act_step h a with
+      | (h', RFrozen) => (h', RFrozen)
+      | (h', RFault) => (h', RFault)
+      | (h', _) =>
+        if stops kind stop then (h', iter_out kind (acc ++ [e]) true)
+        else iter_loop kind h' (snap_after h a al snap) (al && same_array h h') (S i) n' (tl acts) (acc ++ [e])
+      end
+    end
+  end.
+
+Definition iterate (kind : iter_kind) (h : sh) (acts : list (act * bool)) : sh * out :=
+  iter_loop kind h (entries h) true 0 (length (entries h)) acts [].
+
 Inductive op :=
 | ONew
 | OPut (h : nat) (k : str) (v : val)
@@ -192,7 +289,9 @@ Inductive op :=
 | OIsFrozen (h : nat)
 | OEquals (h o : nat)
 | OComputePanic (h : nat) (k : str)                              (* ComputeIfAbsent(k, func() { panic }) + recover *)
-| OComputePut (h : nat) (k : str) (v : val) (k2 : str) (v2 : val). (* ComputeIfAbsent(k, func() { h.Put(k2, v2); return v }) *)
+| OComputePut (h : nat) (k : str) (v : val) (k2 : str) (v2 : val) (* ComputeIfAbsent(k, func() { h.Put(k2, v2); return v }) *)
+| ONewCap (c : nat)                                              (* NewStringHash(c); ONew is NewStringHash(2) *)
+| OIter (h : nat) (kind : iter_kind) (acts : list (act * bool)). (* h.EachKey/EachPair/EachValue/AllPair/AnyPair(callback) *)
 
 Definition heap := list sh.
 
@@ -210,7 +309,7 @@ Definition upd (hp : heap) (i : nat) (r : sh * out) : heap * out := (hset hp i (
 
 Definition step (hp : heap) (o : op) : heap * out :=
   match o with
-  | ONew => (hp ++ [mkSh [] [] false], RObj (length hp))
+  | ONew => (hp ++ [mkSh [] [] false 2], RObj (length hp))
   | OPut i k v => with_obj hp i (fun h => upd hp i (put h k v))
   | ODelete i k => with_obj hp i (fun h => upd hp i (delete h k))
   | OGet i k => with_obj hp i (fun h => (hp, get h k))
@@ -224,7 +323,7 @@ Definition step (hp : heap) (o : op) : heap * out :=
       | (_, r) => (hp, r)
       end))
   | OPutAll i j => with_obj hp i (fun h => with_obj hp j (fun o => upd hp i (put_all h (entries o))))
-  | OFreeze i => with_obj hp i (fun h => (hset hp i (mkSh (entries h) (index h) true), RUnit))
+  | OFreeze i => with_obj hp i (fun h => (hset hp i (mkSh (entries h) (index h) true (cap h)), RUnit))
   | OKeys i => with_obj hp i (fun h => (hp, RKeys (map fst (entries h))))
   | OValues i => with_obj hp i (fun h => (hp, RVals (map snd (entries h))))
   | OPairs i => with_obj hp i (fun h => (hp, RPairs (entries h)))
@@ -234,6 +333,8 @@ Definition step (hp : heap) (o : op) : heap * out :=
   | OEquals i j => with_obj hp i (fun h => with_obj hp j (fun o => (hp, equals h o)))
   | OComputePanic i k => with_obj hp i (fun h => upd hp i (compute_panic h k))
   | OComputePut i k v k2 v2 => with_obj hp i (fun h => upd hp i (compute_put h k v k2 v2))
+  | ONewCap c => (hp ++ [mkSh [] [] false c], RObj (length hp))
+  | OIter i kind acts => with_obj hp i (fun h => upd hp i (iterate kind h acts))
   end.
 
 Fixpoint run (hp : heap) (ops : list op) : heap * list out :=
@@ -312,6 +413,36 @@ Definition s_equals (h o : ssh) : bool :=
   forallb (fun kv => match s_lookup (sents o) (fst kv) with
                      | Some v => Z.eqb (snd kv) v | None => false end) (sents h).
 
+
+(* Iteration of the abstract map: the callback is called once for every entry the map held WHEN THE ITERATION
+   STARTED, in order, whatever it does to the map meanwhile (entries it deletes before their turn included, entries
+   it adds not); what it does takes effect on the map at once.  No array, no capacity. *)
+Definition s_act_step (h : ssh) (a : act) : ssh * out :=
+  match a with
+  | ANone => (h, RUnit)
+  | ADel k => s_delete h k
+  | APut k v => s_put h k v
+  | ACompute k v => s_compute h k v
+  end.
+
+Fixpoint s_iter_loop (kind : iter_kind) (h : ssh) (pend : list (str * val)) (acts : list (act * bool))
+         (acc : list (str * val)) : ssh * out :=
+  match pend with
+  | [] => (h, iter_out kind acc false)
+  | e :: r =>
+    let (a, stop) := next_act acts in
+    match s_act_step h a with
+    | (h', RFrozen) => (h', RFrozen)
+    | (h', RFault) => (h', RFault)
+    | (h', _) =>
+      if stops kind stop then (h', iter_out kind (acc ++ [e]) true)
+      else s_iter_loop kind h' r (tl acts) (acc ++ [e])
+    end
+  end.
+
+Definition s_iterate (kind : iter_kind) (h : ssh) (acts : list (act * bool)) : ssh * out :=
+  s_iter_loop kind h (sents h) acts [].
+
 Definition sheap := list ssh.
 Fixpoint shset (hp : sheap) (i : nat) (h : ssh) : sheap :=
   match hp, i with
@@ -351,12 +482,27 @@ Definition s_step (hp : sheap) (o : op) : sheap * out :=
   | OEquals i j => s_with hp i (fun h => s_with hp j (fun o => (hp, RBool (s_equals h o))))
   | OComputePanic i k => s_with hp i (fun h => s_upd hp i (s_compute_panic h k))
   | OComputePut i k v k2 v2 => s_with hp i (fun h => s_upd hp i (s_compute_put h k v k2 v2))
+  | ONewCap _ => (hp ++ [mkS [] false], RObj (length hp))
+  | OIter i kind acts => s_with hp i (fun h => s_upd hp i (s_iterate kind h acts))
   end.
 
 (* the histories of the refinement theorem: a re-entrant mapping function puts a key OTHER than the computed one *)
 Definition op_ok (o : op) : bool :=
   match o with OComputePut _ k _ k2 _ => negb (str_eqb k k2) | _ => true end.
 Definition ops_ok (ops : list op) : bool := forallb op_ok ops.
+
+
+(* Which histories the two refinement theorems talk about.  A callback that PUTS a key the iteration has not reached
+   yet may or may not be handed the new value when it gets there - it depends on whether the entries still live in
+   the array the iteration started on (capacity, an earlier Delete) - so the abstract map, which has no arrays, says
+   nothing about the VALUES such an iteration shows: `erase_values` forgets them (their number stays).  Histories
+   whose callbacks do not put (they delete, compute, or do nothing: ops_plain) are compared exactly. *)
+Definition act_plain (a : act) : bool := match a with APut _ _ => false | _ => true end.
+Definition acts_plain (acts : list (act * bool)) : bool := forallb (fun a => act_plain (fst a)) acts.
+Definition op_plain (o : op) : bool := match o with OIter _ _ acts => acts_plain acts | _ => true end.
+Definition ops_plain (ops : list op) : bool := forallb op_plain ops.
+Definition erase_values (o : out) : out :=
+  match o with RIter ks vs b => RIter ks (map (fun _ => 0) vs) b | _ => o end.
 
 Fixpoint s_run (hp : sheap) (ops : list op) : sheap * list out :=
   match ops with
@@ -378,5 +524,6 @@ Definition out_eqb (a b : out) : bool :=
   | RKeys x, RKeys y => list_eqb str_eqb x y
   | RVals x, RVals y => list_eqb Z.eqb x y
   | RPairs x, RPairs y => list_eqb pair_eqb x y
+  | RIter k1 v1 b1, RIter k2 v2 b2 => list_eqb str_eqb k1 k2 && list_eqb Z.eqb v1 v2 && Bool.eqb b1 b2
   | _, _ => false
   end.
